@@ -134,6 +134,16 @@ theorem quiescent_clean {s : State} (h : Reachable s) (hq : ∀ i, (s.tasks i).s
         have := ((I.waitingPos i k).mp hw).2
         rw [hd.2] at this; cases this
 
+/-- `release()` by a task that does not hold the lock (another task holds it, or nobody) is refused
+    before anything is modified: the event is always accepted by the model when the running task is
+    not the owner, and the state is unchanged - so every invariant above survives erroneous releases
+    at any point of any interleaving. -/
+theorem refused_release_changes_nothing (s : State) (k i : Nat) (hc : s.cur = some i)
+    (hne : (s.locks k).owner ≠ some i) :
+    (Ev.badRelease k).enabled s = true ∧ s.apply (.badRelease k) = s := by
+  refine ⟨?_, rfl⟩
+  simp only [Ev.enabled, hc, bne_iff_ne, ne_eq]; exact hne
+
 /-! ### progress
 
 "If no more faults occur and holders release, every acquirer that is not cancelled gets the lock",
